@@ -535,6 +535,14 @@ def oracles (st : WorldSt) (pd : Pending) (post : Bool := false) : List (String 
         match mn with
          | some m => out := out ++ fails "C11" s!"route succeeded but recipient got {got} < minimum {m}" (decide ((m : Int) ≤ got))
          | none => pure ()
+        -- C13: an accepted route leaves exactly one dangling output (an ask no later hop offers; by asset text, as the
+        -- code keys it) — index-based, independent of the model's `danglingAsks`
+        let names := ops.map fun (a, b) => (nameOf st a, nameOf st b)
+        let idx := List.range names.length
+        let dangling := (idx.filterMap fun i =>
+            let x := (names.getD i ("", "")).2
+            if (idx.filter (fun j => decide (i < j))).all (fun j => (names.getD j ("", "")).1 != x) then some x else none).eraseDups
+        out := out ++ fails "C13" s!"a route with {dangling.length} dangling output assets was accepted" (dangling.length == 1)
         -- C13: pure pass-through when pairs are distinct and the router held none of the route's assets
         let routeAssets := (ops.flatMap fun (a, b) => [a, b]).eraseDups
         let pairsOnRoute := ops.map fun (a, b) => (curVal st s!"reg {showAsset a} {showAsset b}").splitOn " " |>.head!
